@@ -315,6 +315,12 @@ class G:
                 vals[1] = ["a"] + [1] * k + [0] * (m - k)
             else:
                 vals[1] = ["a"] + [r.choice([0, 1]) for _ in range(m)]
+        elif op == "vmap" and n is None and prog[1][0] in ("masked_iterate", "masked_iterate_final"):
+            def bits(t):          # step flags are 0/1 whatever the batching
+                if t[0] == "arr":
+                    return ["a"] + [bits(t[2]) for _ in range(t[1])]
+                return r.choice([0, 1])
+            vals[1] = bits(atys[1])
         elif op == "vmap" and n is None and prog[1][0] in ("mask", "switch", "orelse"):
             inner = prog[1]
             if prog[2][0]:
